@@ -16,25 +16,13 @@ theorem ascii_bytes_eq_length (s : String) (h : IsAscii s) : utf8Len s = s.lengt
   rw [Proofs.sum_map_one _ _ (fun c hc => Char.utf8Size_eq_one_iff.mpr (h c hc))]
   exact String.length_toList
 
-/-- a pattern without carriage return (the scope of the exactness theorems: known finding K31) -/
-def NoCR (p : String) : Prop := ∀ c ∈ p.toList, c ≠ '\r'
-
-theorem rawStringValue_of_noCR (p : String) (h : NoCR p) : rawStringValue p = p := by
-  unfold rawStringValue
-  have : p.toList.filter (fun c => c != '\r') = p.toList := by
-    apply List.filter_eq_self.mpr
-    intro c hc
-    simpa using h c hc
-  rw [this, String.ofList_toList]
-
 /-- **C06**: on ASCII strings (or without length keywords) the emitted test accepts exactly the strings whose
     length in characters lies within the limits and that match the pattern.  Limits are non-negative
     (JSON Schema requires it). -/
-theorem string_check_exact_ascii (minLen maxLen : Int) (pattern s : String) (h : IsAscii s) (hcr : NoCR pattern) :
+theorem string_check_exact_ascii (minLen maxLen : Int) (pattern s : String) (h : IsAscii s) :
     stringPasses minLen maxLen pattern s = true ↔
       (Spec.lengthOK minLen maxLen s = true ∧ Spec.patternOK pattern s = true) := by
   unfold stringPasses Spec.lengthOK
-  rw [rawStringValue_of_noCR pattern hcr]
   rw [ascii_bytes_eq_length s h]
   have hp : (decide (pattern = "") || Spec.patternOK pattern s) = Spec.patternOK pattern s := by
     by_cases hpe : pattern = ""
@@ -44,10 +32,9 @@ theorem string_check_exact_ascii (minLen maxLen : Int) (pattern s : String) (h :
   exact And.comm
 
 /-- without length keywords no ASCII hypothesis is needed -/
-theorem string_check_exact_pattern_only (pattern s : String) (hcr : NoCR pattern) :
+theorem string_check_exact_pattern_only (pattern s : String) :
     stringPasses 0 0 pattern s = true ↔ (Spec.lengthOK 0 0 s = true ∧ Spec.patternOK pattern s = true) := by
   unfold stringPasses Spec.lengthOK
-  rw [rawStringValue_of_noCR pattern hcr]
   by_cases hpe : pattern = ""
   · subst hpe; simp [Spec.patternOK]
   · simp [hpe]
@@ -70,12 +57,10 @@ example : IsAscii "abc" := by intro c hc; simp at hc; rcases hc with rfl | rfl |
 example : stringPasses 2 3 "^a" "abc" = true := by decide +kernel
 example : stringPasses 2 3 "^a" "abcd" = false := by decide +kernel
 
-/-- known finding K31: a carriage return in the pattern is discarded by the Go raw string literal it is pasted
-    into: pattern CR LF accepts "a", LF, "b", which the schema's pattern does not match -/
-theorem KF_carriage_return_discarded :
-    stringPasses 0 0 "\r\n" "a\nb" = true ∧ Spec.patternOK "\r\n" "a\nb" = false := by
+/-- since fix R13 a pattern with a carriage return (or a backquote) is applied exactly: CR LF does not match
+    "a", LF, "b" (before, the raw string literal silently dropped the CR: the former finding K31) -/
+theorem carriage_return_pattern_exact :
+    stringPasses 0 0 "\r\n" "a\nb" = false ∧ stringPasses 0 0 "\r\n" "a\r\nb" = true := by
   constructor <;> decide +kernel
-
-example : NoCR "^[a-z]*$" := by intro c hc; revert c; decide +kernel
 
 end GJS.Props.C06
